@@ -1,5 +1,6 @@
 (* C08 — untrusted peer input never crashes the client or exceeds message bounds. *)
 From RainV Require Import Lib Bencode Wire ReaderBound Geometry PieceDl Leech LeechProofs LeechLocal MetaSess MetaSessProofs.
+From RainV Require Meta MetaProofs.
 
 (* for every byte stream after the handshake -- malformed lengths, unknown ids, truncated or
    oversized messages -- every message the reader delivers respects the bounds: a bitfield has at
@@ -30,3 +31,9 @@ Theorem C08_metadata_buffer_capped : forall truesize mx par q np P s, mreach (mi
   forall p d, m_idl (mget s p) = Some d -> 0 < d_size d <= mx.
 Proof. intros truesize mx par q np P s H. apply (adoption_sound truesize mx par q np P s H). Qed.
 Print Assumptions C08_metadata_buffer_capped.
+
+(* bencode from a peer is refused before it is decoded when it is nested deeper than 64 levels: the
+   recursive decoder's depth is bounded for every extension message that is decoded at all *)
+Theorem C08_decoded_nesting_bounded : forall n t, Meta.run_net_nesting [n; t] = [1] -> Meta.nesting_levels 0 n <= Meta.max_nesting.
+Proof. exact MetaProofs.net_nesting_bounded. Qed.
+Print Assumptions C08_decoded_nesting_bounded.
